@@ -1580,3 +1580,155 @@ Theorem thm_nonvacuous :
   run 1 [] Ex.evs_ok =
     ([], [ONone; ONone; ONone; ONone; ONone; ODeliver (reassembled Ex.nB); ONone; ODeliver (reassembled Ex.nA)]).
 Proof. split; [exact Ex.hyps_ok | exact Ex.outcome_ok]. Qed.
+
+(* ---- the listen loop: failed passes do not count as misses ---------------------------------------- *)
+Section Listen.
+  Context {A : Type}.
+
+  Lemma paced_from_no_own g : forall (evs : list (ev A)) c, existsb (is_own g) evs = false -> paced_from g c evs = true.
+  Proof.
+    induction evs as [|[p|] r IH]; intros c H; cbn [paced_from existsb is_own] in *; [reflexivity| |].
+    - apply orb_false_iff in H. destruct H as [H1 H2]. rewrite H1. now apply IH.
+    - cbn [orb] in H. rewrite H. reflexivity.
+  Qed.
+
+  Lemma paced_from_of_sparse g : forall (evs : list (ev A)) (pending : bool) c f,
+    sparse pending evs = true -> fgap_from g f evs = true -> 0 <= f < 4 ->
+    c <= f + (if pending then 1 else 0) -> paced_from g c evs = true.
+  Proof.
+    induction evs as [|[p|] r IH]; intros pending c f Hs Hf Hr Hc; cbn [paced_from sparse fgap_from] in *; [reflexivity| |].
+    - destruct (f_group (p_flags p) =? g).
+      + apply (IH false 0 0); auto; lia.
+      + destruct (existsb (is_own g) r) eqn:E.
+        * apply andb_true_iff in Hf. destruct Hf as [Hf1 Hf2].
+          apply (IH false c (f + 1)); auto; try lia. destruct pending; lia.
+        * now apply paced_from_no_own.
+    - apply andb_true_iff in Hs. destruct Hs as [Hp Hs]. destruct pending; [discriminate|].
+      destruct (existsb (is_own g) r); [|reflexivity].
+      apply andb_true_iff. split; [unfold fragMaxMisses; lia|].
+      apply (IH true (c + 1) f); auto. lia.
+  Qed.
+
+  Lemma sparse_weaken : forall (evs : list (ev A)), sparse true evs = true -> sparse false evs = true.
+  Proof. destruct evs as [|[p|] r]; cbn [sparse]; auto. intros H. discriminate. Qed.
+
+  Lemma paced_of_sparse g : forall (evs : list (ev A)) (pending : bool),
+    sparse pending evs = true -> fgap g evs = true -> paced g evs = true.
+  Proof.
+    induction evs as [|[p|] r IH]; intros pending Hs Hf; cbn [paced sparse fgap] in *; [reflexivity| |].
+    - destruct (f_group (p_flags p) =? g).
+      + apply (paced_from_of_sparse g r false 0 0); auto; lia.
+      + now apply (IH false).
+    - apply andb_true_iff in Hs. destruct Hs as [_ Hs]. now apply (IH true).
+  Qed.
+
+  Lemma sparse_pre errs (pending : bool) (evs : list (ev A)) : (pending = true -> errs <> 0) ->
+    sparse (if errs =? 0 then true else pending) evs = true ->
+    sparse pending ((if errs =? 0 then [EvSweep] else []) ++ evs) = true.
+  Proof.
+    intros Hp H. destruct (Z.eqb_spec errs 0) as [E|E]; cbn [app sparse]; [|exact H].
+    destruct pending; [exfalso; now apply Hp|]. exact H.
+  Qed.
+  Lemma sparse_pre_pkt errs (pending : bool) p (evs : list (ev A)) : (pending = true -> errs <> 0) ->
+    sparse false evs = true ->
+    sparse pending ((if errs =? 0 then [EvSweep] else []) ++ EvPkt p :: evs) = true.
+  Proof.
+    intros Hp H. apply sparse_pre; [exact Hp|]. destruct (errs =? 0); exact H.
+  Qed.
+
+  (* without switches the loop sweeps at most once between two arrivals: a sweep needs errors = 0, a failed
+     pass leaves errors >= 1, and only an exchange that went through resets the counter *)
+  Lemma listen_sparse self : forall (ws : list (lwake A)) errs (st : state A) (pending : bool),
+    no_switch ws = true -> 0 <= errs <= 6 -> (pending = true -> errs <> 0) ->
+    sparse pending (listen_evs self errs st ws) = true.
+  Proof.
+    unfold listen_evs.
+    induction ws as [|w r IH]; intros errs st pending Hns He Hp; [reflexivity|].
+    cbn [no_switch forallb] in Hns. apply andb_true_iff in Hns. destruct Hns as [Hsw Hns].
+    apply negb_true_iff in Hsw. cbn [listen_sim]. rewrite Hsw. unfold maxErrors.
+    destruct w as [sw|sw|sw p].
+    - destruct (Z.leb_spec errs 5) as [Hle|Hgt].
+      + rewrite (u8_small (errs + 1)) by lia.
+        pose proof (IH (errs + 1) (if errs =? 0 then sweep st else st) (if errs =? 0 then true else pending) Hns ltac:(lia)) as H.
+        destruct (listen_sim self (errs + 1) (if errs =? 0 then sweep st else st) r) as [[evs el] sp]. cbn [fst] in *.
+        apply sparse_pre; [exact Hp|]. apply H. intros _. lia.
+      + cbn [fst]. replace (errs =? 0) with false by lia. reflexivity.
+    - rewrite (u8_small (errs + 1)) by lia.
+      destruct (Z.ltb_spec 5 (errs + 1)) as [Hgt|Hle].
+      + cbn [fst]. replace (errs =? 0) with false by lia. reflexivity.
+      + pose proof (IH (errs + 1) (if errs =? 0 then sweep st else st) (if errs =? 0 then true else pending) Hns ltac:(lia)) as H.
+        destruct (listen_sim self (errs + 1) (if errs =? 0 then sweep st else st) r) as [[evs el] sp]. cbn [fst] in *.
+        apply sparse_pre; [exact Hp|]. apply H. intros _. lia.
+    - rewrite (u8_small (errs + 1)) by lia.
+      set (e2 := if is_err (snd (recv self (if errs =? 0 then sweep st else st) p)) then errs + 1 else 0).
+      assert (0 <= e2 <= 7) as He2 by (unfold e2; destruct (is_err _); lia).
+      destruct (Z.ltb_spec 5 e2) as [Hgt|Hle].
+      + cbn [fst]. apply sparse_pre_pkt; [exact Hp | reflexivity].
+      + pose proof (IH e2 (fst (recv self (if errs =? 0 then sweep st else st) p)) false Hns ltac:(lia)) as H.
+        destruct (listen_sim self e2 (fst (recv self (if errs =? 0 then sweep st else st) p)) r) as [[evs el] sp]. cbn [fst] in *.
+        apply sparse_pre_pkt; [exact Hp|]. apply H. intros; discriminate.
+  Qed.
+
+  (* the property for a client whose listen loop runs through ANY passes (failed ones in any number, as
+     long as the loop itself goes on): the arrivals of group g the loop produces are the fragments of n in
+     some order with position 0 first, fewer than 4 foreign exchanges between two of them *)
+  Theorem listen_failed_wakeups_free (F g self : Z) (n : packet A) (ws : list (lwake A)) errs (st0 : state A) :
+    HeaderSize <= F -> 0 <= p_tags n -> F < size n -> nfrag F n <= 65535 -> addressed self n ->
+    wf st0 -> lookup g st0 = None ->
+    no_switch ws = true -> 0 <= errs <= 6 ->
+    let evs := listen_evs self errs st0 ws in
+    Permutation (own_pkts g evs) (split F g n) ->
+    hd_error (own_pkts g evs) = hd_error (split F g n) ->
+    fgap g evs = true ->
+    own_outs g evs (snd (run self st0 evs)) = repeat ONone (Z.to_nat (nfrag F n - 1)) ++ [ODeliver (reassembled n)] /\
+    lookup g (fst (run self st0 evs)) = None.
+  Proof.
+    intros HF Ht Hs HM Ha Hwf L Hns He evs HP Hhd Hfg. apply and_comm.
+    apply (reassemble_any_order F g self n); auto.
+    apply (paced_of_sparse g evs false); [|exact Hfg].
+    apply listen_sparse; auto. intros; discriminate.
+  Qed.
+End Listen.
+
+Module ExL.
+  Import Ex.
+  Definition pk (k : nat) : lwake Z := LPkt false (nth k (split F gA nA) nA).
+  Definition rf : lwake Z := LRefused false.
+  Definition ls : lwake Z := LLost false.
+  (* fragment 0; six refused connects; fragment 2; five lost exchanges; fragment 1 *)
+  Definition ws_ok : list (lwake Z) := [pk 0; rf; rf; rf; rf; rf; rf; pk 2; ls; ls; ls; ls; ls; pk 1].
+  Lemma listen_ok :
+    no_switch ws_ok = true /\
+    listen_sim 1 0 [] ws_ok =
+      ([EvSweep; a 0; EvSweep; a 2; EvSweep; a 1], [0; 1; 2; 3; 4; 5; 6; 0; 1; 2; 3; 4; 5; 0], false) /\
+    fgap gA (listen_evs 1 0 [] ws_ok) = true /\
+    run 1 [] (listen_evs 1 0 [] ws_ok) = ([], [ONone; ONone; ONone; ONone; ONone; ODeliver (reassembled nA)]).
+  Proof. repeat split; vm_compute; reflexivity. Qed.
+  (* a seventh refused connect, or a sixth lost exchange, ends the loop *)
+  Lemma listen_ends :
+    snd (listen_sim 1 0 [] [pk 0; rf; rf; rf; rf; rf; rf; rf; pk 1]) = true /\
+    snd (listen_sim 1 0 [] [pk 0; ls; ls; ls; ls; ls; ls; pk 1]) = true /\
+    (* Switch reporting a switch while the counter is 0: it wraps to 255 and one refused connect ends the loop *)
+    listen_sim 1 0 [] [pk 0; LRefused true; pk 1] = ([EvSweep; a 0; EvSweep], [0; 255], true).
+  Proof. repeat split; vm_compute; reflexivity. Qed.
+End ExL.
+
+Theorem thm_listen_failed_wakeups_free : forall (A : Type) (F g self : Z) (n : packet A) (ws : list (lwake A)) (errs : Z) (st0 : state A),
+  HeaderSize <= F -> 0 <= p_tags n -> F < size n -> nfrag F n <= 65535 -> addressed self n ->
+  NoDup (map fst st0) -> lookup g st0 = None ->
+  no_switch ws = true -> 0 <= errs <= 6 ->
+  Permutation (own_pkts g (listen_evs self errs st0 ws)) (split F g n) ->
+  hd_error (own_pkts g (listen_evs self errs st0 ws)) = hd_error (split F g n) ->
+  fgap g (listen_evs self errs st0 ws) = true ->
+  own_outs g (listen_evs self errs st0 ws) (snd (run self st0 (listen_evs self errs st0 ws))) =
+    repeat ONone (Z.to_nat (nfrag F n - 1)) ++ [ODeliver (reassembled n)] /\
+  lookup g (fst (run self st0 (listen_evs self errs st0 ws))) = None.
+Proof. intros. now apply (listen_failed_wakeups_free F g self n ws errs st0). Qed.
+
+Theorem thm_listen_sweeps_sparse : forall (A : Type) (self : Z) (ws : list (lwake A)) (errs : Z) (st : state A),
+  no_switch ws = true -> 0 <= errs <= 6 -> sparse false (listen_evs self errs st ws) = true.
+Proof. intros. apply listen_sparse; auto. intros; discriminate. Qed.
+
+Theorem thm_sparse_paced : forall (A : Type) (g : Z) (evs : list (ev A)),
+  sparse false evs = true -> fgap g evs = true -> paced g evs = true.
+Proof. intros. now apply (paced_of_sparse g evs false). Qed.
